@@ -65,6 +65,7 @@ mutual
       | 'p' => (parseCE rest).map fun (e, r) => (.append tl e, r)
       | 'r' => (parseCE rest).map fun (e, r) => (.ret e, r)
       | 'o' => (parseCE rest).map fun (e, r) => (.print e, r)
+      | 'O' => (match parseCE rest with | some (a, r1) => (parseCE r1).map fun (b, r2) => (.print2 a b, r2) | none => none)
       | 'e' => (parseCE rest).map fun (e, r) => (.exprS e, r)
       | 'k' => some (.brk, rest)
       | 'c' => some (.cont, rest)
@@ -135,6 +136,7 @@ mutual
     | .append x e => s!"append({x},{reprStr e})"
     | .ret e => s!"ret({reprStr e})"
     | .print e => s!"print({reprStr e})"
+    | .print2 a b => s!"print2({reprStr a},{reprStr b})"
     | .exprS e => s!"expr({reprStr e})"
     | .brk => "break"
     | .cont => "continue"
